@@ -45,6 +45,15 @@ def cases(tier, seed):
             out.append(dict(kind="obs", n=n, b=b, eqk=1, seed=k, draws=d))
             out.append(dict(kind="param", n=n, b=b, keys=["range", "table1"], seed=k, draws=d))
             out.append(dict(kind="multiobs", nets=[n, 0, n2] if b <= n2 else [n, 0], b=b, eqk=0, seed=k, draws=d))
+    # border batch size independent of (smaller / larger than) the interior batch size, several border batches per epoch
+    for nf in range(2, N + 1):
+        for bb in range(1, nf + 1):
+            for (n_, b_) in ((N, 1), (N, N), (nf, (bb % nf) + 1)):
+                k = sd + 7000 + 100 * nf + 10 * bb + b_
+                d = max(draws(n_, b_), draws(nf, bb))
+                out.append(dict(kind="statio", dim=2, n=n_, b=b_, nb=4 * nf, bb=bb, seed=k, draws=d))
+                if tier != "quick" or (nf + bb) % 2:
+                    out.append(dict(kind="nonstatio", dim=2, n=n_, b=b_, nb=4 * nf, bb=bb, nt=2, bt=1, seed=k, draws=d))
     # stores with an active RAR probability mask (active prefix nstart < n)
     M = 4 if tier == "quick" else 6
     for n in range(2, M + 1):
